@@ -1,0 +1,82 @@
+//go:build verif
+
+package core
+
+import (
+	"strings"
+
+	"github.com/jsightapi/jsight-api-core/directive"
+	"github.com/jsightapi/jsight-api-core/jerr"
+)
+
+// VerifNode is a neutral, read-only dump of one directive of the directive tree.
+// Only compiled with the "verif" build tag; used by external conformance checks.
+type VerifNode struct {
+	Kind       string            `json:"kind"`
+	Keyword    string            `json:"keyword"`
+	Named      map[string]string `json:"named,omitempty"`
+	Unnamed    []string          `json:"unnamed,omitempty"`
+	Annotation string            `json:"annotation,omitempty"`
+	Explicit   bool              `json:"explicit,omitempty"`
+	HasBody    bool              `json:"hasBody,omitempty"`
+	BodyBegin  int               `json:"bodyBegin,omitempty"`
+	BodyEnd    int               `json:"bodyEnd,omitempty"`
+	File       string            `json:"file"`
+	Begin      int               `json:"begin"`
+	Line       int               `json:"line"`
+	Trace      []string          `json:"trace,omitempty"`
+	Children   []*VerifNode      `json:"children,omitempty"`
+}
+
+// VerifScanOnly runs the scanning phase only (lexemes -> directive tree).
+func (core *JApiCore) VerifScanOnly() *jerr.JApiError { return core.scanProject() }
+
+// VerifExpand runs MACRO collection, the recursion check and PASTE expansion.
+func (core *JApiCore) VerifExpand() *jerr.JApiError {
+	if je := core.collectMacro(); je != nil {
+		return je
+	}
+	if je := core.checkMacroForRecursion(); je != nil {
+		return je
+	}
+	return core.processPaste()
+}
+
+// VerifTree dumps the directive tree built by the scanning phase.
+func (core *JApiCore) VerifTree() []*VerifNode { return verifDump(core.directives) }
+
+// VerifExpandedTree dumps the directive tree after MACRO/PASTE processing.
+func (core *JApiCore) VerifExpandedTree() []*VerifNode { return verifDump(core.directivesWithPastes) }
+
+func verifDump(dd []*directive.Directive) []*VerifNode {
+	out := make([]*VerifNode, 0, len(dd))
+	for _, d := range dd {
+		kc := d.VerifKeywordCoords()
+		n := &VerifNode{
+			Kind:       d.Type().String(),
+			Keyword:    d.Keyword,
+			Named:      d.VerifNamedParameters(),
+			Unnamed:    append([]string(nil), d.UnnamedParameter()...),
+			Annotation: d.Annotation,
+			Explicit:   d.HasExplicitContext,
+			Begin:      int(kc.Begin()),
+		}
+		if kc.File() != nil {
+			n.File = kc.File().Name()
+		}
+		if d.BodyCoords.IsSet() {
+			n.HasBody = true
+			n.BodyBegin = int(d.BodyCoords.Begin())
+			n.BodyEnd = int(d.BodyCoords.VerifEnd())
+		}
+		// The include trace is only observable through an error; render one.
+		je := d.KeywordError("verif")
+		n.Line = int(je.Line)
+		if lines := strings.Split(je.Error(), "\n"); len(lines) > 2 {
+			n.Trace = lines[2:]
+		}
+		n.Children = verifDump(d.Children)
+		out = append(out, n)
+	}
+	return out
+}
